@@ -1,6 +1,7 @@
 /-
 C13 — model of the sequence-diagram visitor (pkg/cmdutils/visitor.go:334-601) and writer
-(pkg/cmdutils/writer.go:106-139): one starting endpoint, default labels, no black boxes.
+(pkg/cmdutils/writer.go:106-139): one starting endpoint, default labels, optional black boxes
+(endpoints that are shown with a note but never expanded).
 
 The walk produces a TREE of output nodes (so that block structure is explicit) which `flat`
 turns into the event list that corresponds line by line to the PlantUML body.
@@ -43,6 +44,8 @@ inductive Ev where
   | ret (dst src : String)        -- dst<--src : payload
   | act (a : String)
   | deact (a : String)
+  | note (a : String)             -- note over a: comment   (black box with a return)
+  | noteSide                      -- note left/right: comment (black box without a return)
   | open_ (kind : String)
   | else_
   | end_
@@ -59,6 +62,7 @@ structure S where
   active  : List (String × Nat) := []   -- writer.Active
   cells   : List Bool := []             -- one-shot flags of the Activated closures
   visited : List String := []           -- "app <- ep" keys in progress
+  bb      : List (String × String) := []  -- black boxes: "app <- ep" key, comment
 deriving Repr
 
 /-- `UniqueVarForAppName` -/
@@ -150,6 +154,17 @@ def visitEndpoint (m : Module) : Nat → S → (fromApp : Option String) → (ap
         | none => ([], s)
       if e.stmts.isEmpty then some (.ok (out1 ++ out2, s)) else
       let key := app ++ " <- " ++ ep
+      match s.bb.lookup key with
+      | some comment =>
+        -- a black box: shown with its note, never expanded
+        if payload != "" then
+          let (oa, s) := activate s agent
+          let on := if comment.isEmpty then [] else [Node.ev (.note agent)]
+          let orr := if e.hidden then [] else [Node.ev (.ret sender agent)]
+          let (od, s) := deactivate s agent
+          some (.ok (out1 ++ out2 ++ oa ++ on ++ orr ++ od, s))
+        else some (.ok (out1 ++ out2 ++ [Node.ev .noteSide], s))
+      | none =>
       if s.visited.contains key then
         -- shown, not expanded again; no black-box entry here, so neither Activate nor Deactivate
         if payload != "" then
@@ -256,8 +271,8 @@ structure Output where
   participants : List String       -- application names, allocation order
 deriving Repr
 
-def generate (m : Module) (fuel : Nat) (app ep : String) : Option (Except Err Output) :=
-  match visitEndpoint m fuel {} none app ep false false none with
+def generate (m : Module) (fuel : Nat) (app ep : String) (bb : List (String × String) := []) : Option (Except Err Output) :=
+  match visitEndpoint m fuel { bb := bb } none app ep false false none with
   | none => none
   | some (.error e) => some (.error e)
   | some (.ok (nodes, s)) => some (.ok { wf := wfNodes nodes, events := flat nodes, participants := s.syms })
